@@ -86,6 +86,12 @@ WIRE = {
 # ----------------------------------------------------------------------------- generators
 
 
+def weighted(*pairs):
+    """one_of with weights (hypothesis' one_of drops duplicate branches)."""
+    table = [strat for w, strat in pairs for _ in range(w)]
+    return st.integers(0, len(table) - 1).flatmap(lambda i: table[i])
+
+
 def _perm(universe, min_size):
     return st.lists(st.sampled_from(universe), unique=True, min_size=min_size, max_size=len(universe))
 
@@ -107,7 +113,7 @@ def _side():
     none = st.just({c: [] for c in UNIVERSE})
     wide = st.fixed_dictionaries({"prefs": wide_prefs, "disabled": st.one_of(none, one), "strict": st.booleans()})
     narrow = st.fixed_dictionaries({"prefs": narrow_prefs, "disabled": st.one_of(none, few, few, many), "strict": st.booleans()})
-    return st.one_of(wide, wide, wide, narrow)
+    return weighted((4, wide), (1, narrow))
 
 
 def direct_cases(mode="direct"):
@@ -127,7 +133,7 @@ def _names(cat, rich):
     unknown = st.sampled_from(["none@verif", "aes512-xts@verif", "hmac-sha3@verif", "sntrup761x25519-sha512@openssh.com", "ssh-dss", "x", "zlib-ng"])
     pseudo = st.sampled_from(PSEUDO)
     if rich:
-        return st.lists(st.one_of(real, real, real, real, unknown, pseudo), min_size=3, max_size=10)  # duplicates allowed on purpose
+        return st.lists(weighted((6, real), (1, unknown), (1, pseudo)), min_size=3, max_size=10)  # duplicates allowed on purpose
     return st.lists(st.one_of(real, unknown, pseudo), min_size=0, max_size=4)
 
 
@@ -148,7 +154,7 @@ def _peer_lists(rich):
 
 
 def synthetic_cases():
-    lists = st.one_of(_peer_lists(True), _peer_lists(True), _peer_lists(True), _peer_lists(False))
+    lists = weighted((4, _peer_lists(True)), (1, _peer_lists(False)))
     return st.fixed_dictionaries(
         {
             "mode": st.just("synthetic"),
